@@ -74,13 +74,13 @@ function annotate (ast, config) {
         const pc = protoCall(n)
         if (pc && dm.methods.has(pc.method) && n.arguments.length >= 1) {
           // X.prototype.m.call|apply(thisArg, ..): demanded when thisArg is a plain (non-spread, non-literal) expression;
-          // literal this-arguments and apply() without an argument list are left to the implementation (statement silent)
+          // literal this-arguments are left to the implementation (statement silent)
           const th = n.arguments[0]
           const thisOk = th.type !== 'SpreadElement' && !isLit(strip(th))
-          const applyOk = pc.kind === 'call' || n.arguments.length >= 2
+          const applyOk = pc.kind === 'call' || n.arguments.length >= 1 // apply(thisArg) without a list is apply(thisArg, ..) with nothing after it
           if (thisOk && applyOk) {
             req = { op: 'method', method: pc.method, dst: dm.methods.get(pc.method) }
-            if (pc.kind === 'apply' && strip(n.arguments[1]).type !== 'ArrayExpression' && n.arguments[1].type !== 'SpreadElement') req.applyNonLiteralList = true
+            if (pc.kind === 'apply' && n.arguments.length >= 2 && strip(n.arguments[1]).type !== 'ArrayExpression' && n.arguments[1].type !== 'SpreadElement') req.applyNonLiteralList = true
           }
         } else if (!pc) {
           const cal = n.callee
